@@ -898,6 +898,39 @@ def rule_defaults(ctx, f):
             ctx.check(got == want, "C05-USE-defaults", "LZWFlateParams::default", "a stream without /DecodeParms is decoded with %s, Table 8 gives %s" % (got, want), d["span"], detail="Default = Table 8")
 
 
+def rule_avg_width(ctx, f):
+    """seeded C05-9: the Average un-predictor halves the sum of the byte to the left and the byte above; the sum of two bytes needs nine bits, so it is
+    formed in a wider type (a sum reduced mod 256 before the halving decodes bright image rows wrongly)"""
+    ctx.rule("C05-AVG", "in the PNG un-predictor no sum of bytes is halved in the byte type: a dividend of `/ 2` (or `>> 1`) that is itself a sum "
+             "(`+`, wrapping_add ..) has a type wider than u8")
+    b = f.body("enc::unfilter")
+    if b is None:
+        ctx.lost("C05-AVG", "enc::unfilter")
+        return
+    n = 0
+    # the un-predictor, its closures and the crate-local helpers it calls (an `avg(left, up)` helper is part of it)
+    units = [b] + f.closures_of(b["id"]) + [f.bodies[x] for x in sorted(transitive_callees(f, b)) if x in f.bodies and x != b["id"]]
+    for b in units:
+      fl = Flow(b)
+      for bi, bb in enumerate(b["blocks"]):
+        for st in bb["stmts"]:
+            if not (st[0] == "assign" and st[2][0] == "binop" and st[2][1] in ("Div", "Shr")):
+                continue
+            rv = st[2]
+            c = F.const_int(rv[3])
+            if not ((rv[1] == "Div" and c == 2) or (rv[1] == "Shr" and c == 1)) or rv[2][0] not in ("copy", "move"):
+                continue
+            n += 1
+            l = rv[2][1][0]
+            ty = b["locals"][l]["s"]
+            sums = [a for a in fl.origins(l, passthrough=("branch", "unwrap", "expect", "from", "into")) if (a[0] == "binop" and a[1].startswith("Add")) or
+                    (a[0] == "call" and last_seg(a[1]) in ("wrapping_add", "checked_add", "saturating_add", "overflowing_add", "add"))]
+            ctx.check(not (ty in ("u8", "i8") and sums), "C05-AVG", "%s#halved-sum-%s" % (b["id"], ty),
+                      "a sum of bytes is halved in the type %s: left + up is reduced mod 256 before the division, so an Average row with left + up >= 256 "
+                      "decodes to other bytes than the encoder filtered" % ty, "pdf/src/enc.rs (block %d)" % bi, detail="`/ 2` on a %s%s" % (ty, " sum" if sums else " (no sum)"))
+    ctx.floor("C05-AVG", n, 2, "halvings in the PNG un-predictor (Average: first bpp bytes, rest of the row)")
+
+
 def run(ctx):
     f = F.load("default")
     ctx.count("bodies", len(f.bodies))
@@ -910,6 +943,7 @@ def run(ctx):
     c18.rule_vec_reader(ctx, f, "C05-G-pair")
     rule_bytes(ctx, f)
     rule_predictor(ctx, f)
+    rule_avg_width(ctx, f)
     rule_lzw_variant(ctx, f)
     rule_geometry(ctx, f)
     rule_use(ctx, f)
